@@ -12,7 +12,7 @@ STEPS = [
          timeout=dict(quick=300, thorough=300)),
     dict(flavor="asan", harness="h_io", args=["--mode", "c05enum", "--n1", "5", "--n2", "0x55"], cases=dict(quick=579194, thorough=579194),
          tiers=("thorough",), timeout=dict(quick=2400, thorough=2400)),
-    dict(flavor="asan", harness="h_io", args=["--mode", "c05"], cases=dict(quick=2500, thorough=120000), seed_off=3,
+    dict(flavor="asan", harness="h_io", args=["--mode", "c05"], cases=dict(quick=1500, thorough=120000), seed_off=3,
          timeout=dict(quick=300, thorough=2400)),
 ]
 
@@ -22,7 +22,7 @@ REG = dict(
          "interest set at every backend wait (for epoll the kernel's own view from /proc/self/fdinfo/<epfd>), which must equal, for every non-internal "
          "fd, the OR of the interests of the events the harness currently has added (edge flag exactly when requested; select on R/W only); internal fds "
          "(notify, signal socketpair / signalfd) must be read-only registrations. Workloads: bounded-exhaustive op sequences on 2 fds between two waits "
-         "(all 579 194 sequences of length <=5 in thorough, <=3 in quick) plus 2.5k/120k random histories incl. cancelling add/del pairs, close+reopen of "
+         "(all 579 194 sequences of length <=5 in thorough, <=3 in quick) plus 1.5k/120k random histories incl. cancelling add/del pairs, close+reopen of "
          "the same fd number, dup2 over a registered fd, changelist growth to >64 entries; on epoll, epoll+changelist, poll, select x self-pipe/signalfd. "
          "ASan+UBSan, asserts on. Sampling beyond the enumerated bound: held-on-observed.",
     note="trusts /proc/self/fdinfo and the wrapped syscall arguments as the kernel's view, and the shadow map in harness/h_io.c; events are deleted before "
